@@ -1,6 +1,7 @@
 package main
 
 import (
+	"fmt"
 	"go/token"
 	"go/types"
 	"sort"
@@ -459,6 +460,13 @@ func c11datatypeWord(c *Ctx, r *Result) {
 				if sh != decShift[role] {
 					ok = false
 					why += role + " at shift " + itoa(int(sh)) + " (decoder: " + itoa(int(decShift[role])) + "); "
+				}
+				// a description that is re-encoded keeps all 24 bits the decoder hands out
+				if role == "ClassBitField" && valueReadsField(s, "core.DatatypeMessage.ClassBitField", 0) {
+					if kept := keptFieldBits(s, "core.DatatypeMessage.ClassBitField", 0); kept&0xFFFFFF != 0xFFFFFF {
+						ok = false
+						why += fmt.Sprintf("only the bits %#x of ClassBitField reach the header word; the decoder returns all 24 (string padding and character set of a variable-length string live in bits 4..11); ", kept&0xFFFFFF)
+					}
 				}
 			}
 			if why == "" {
@@ -1890,4 +1898,54 @@ func init() {
 			r.Undec("C11.9", "core.Superblock.WriteTo#version-byte", c.Pos(top.Pos()), "no version-specific writer reached from WriteTo")
 		}
 	})
+}
+
+// keptFieldBits: which bits of the field `key` can reach v (through masks, ors and phis; an upper bound).
+func keptFieldBits(v ssa.Value, key string, d int) uint64 {
+	if d > 12 {
+		return ^uint64(0)
+	}
+	switch x := v.(type) {
+	case *ssa.UnOp:
+		if k, _ := fieldLoadKey(x); k == key {
+			return ^uint64(0)
+		}
+		return 0
+	case *ssa.Convert:
+		return keptFieldBits(x.X, key, d+1)
+	case *ssa.ChangeType:
+		return keptFieldBits(x.X, key, d+1)
+	case *ssa.Phi:
+		var out uint64
+		for _, e := range x.Edges {
+			out |= keptFieldBits(e, key, d+1)
+		}
+		return out
+	case *ssa.BinOp:
+		switch x.Op {
+		case token.AND:
+			if m, ok := constInt(x.Y); ok {
+				return keptFieldBits(x.X, key, d+1) & uint64(m)
+			}
+			if m, ok := constInt(x.X); ok {
+				return keptFieldBits(x.Y, key, d+1) & uint64(m)
+			}
+			return keptFieldBits(x.X, key, d+1) & keptFieldBits(x.Y, key, d+1)
+		case token.OR, token.XOR, token.ADD:
+			return keptFieldBits(x.X, key, d+1) | keptFieldBits(x.Y, key, d+1)
+		case token.AND_NOT:
+			if m, ok := constInt(x.Y); ok {
+				return keptFieldBits(x.X, key, d+1) &^ uint64(m)
+			}
+			return keptFieldBits(x.X, key, d+1)
+		}
+		if valueReadsField(x, key, 0) {
+			return ^uint64(0) // shifted or otherwise transformed: not followed
+		}
+		return 0
+	}
+	if valueReadsField(v, key, 0) {
+		return ^uint64(0)
+	}
+	return 0
 }
